@@ -77,11 +77,12 @@ def corr_cases(strength, rng):
     scr = G.screen(2, 2, [7, 7, 7, 9, 9, 5, 5, 5])
     # exhaustive sweep: every non-empty sub-complex as support_elements.  SNC shares _compute_rwg0_space_data with
     # RWG, so the quick tier sweeps it on a seeded third of the subsets only.
-    # Quick tier: the P1/RWG sweep is complete on the octahedron and covers a seeded third of the screen's sub-complexes.
+    # Quick tier (5-minute budget): a seeded half of the octahedron's and a third of the screen's sub-complexes; the
+    # thorough tier sweeps all 255 + 255.
     for name, grid in (("octahedron", octa), ("screen2x2", scr)):
         subs = subsets(grid.number_of_elements)
         part = lambda frac: subs if thorough else [subs[i] for i in sorted(rng.choice(len(subs), int(len(subs) * frac), replace=False))]
-        add_group(name + "/all-subcomplexes", grid, subs if name == "octahedron" else part(1.0 / 3), ["P1", "RWG"])
+        add_group(name + "/all-subcomplexes", grid, part(0.5) if name == "octahedron" else part(1.0 / 3), ["P1", "RWG"])
         add_group(name + "/subcomplexes-dp-snc", grid, part(1.0 / 6), ["DP0", "DP1", "SNC"])
     # segments of multi-domain grids (including non-contiguous indices and an absent index), whole grid, swapped normals
     for name, grid, doms in (("octahedron", octa, [0, 1, 2, 5]), ("screen2x2", scr, [5, 7, 9]),
@@ -190,6 +191,18 @@ def search(strength, rng, replay=None):
                     evals += 1
                     desc = {"grid": gname, "kind": kind, "support_elements": se, "include_boundary_dofs": incl,
                             "truncate_at_segment_edge": trunc, "swapped_normals": sw}
+                    # -- global2local must invert local2global exactly on the non-zero multipliers
+                    want = {}
+                    for e in range(n):
+                        for i in range(sp.local2global.shape[1]):
+                            if sp.local_multipliers[e, i] != 0:
+                                want.setdefault(int(sp.local2global[e, i]), []).append((e, i))
+                    got = {d: [(int(a), int(b)) for a, b in row] for d, row in enumerate(sp.global2local) if len(row)}
+                    if got != want:
+                        fail("C09:global2local-not-inverse:%s" % kind,
+                             "global2local is not the inverse of local2global on the non-zero multipliers",
+                             dict(desc, global2local={str(k): v for k, v in list(got.items())[:6]},
+                                  expected={str(k): v for k, v in list(want.items())[:6]}))
                     # -- dof count against the documented rule
                     nsel = len(selected_vertices_spec(t, support0, incl, trunc)) if kind == "P1" else \
                         len(selected_edges_spec(t, support0, incl))
